@@ -406,6 +406,38 @@ FLEET['G14'] = dict(
     values=['node', 'mnode'],
 )
 
+
+# precedence and associativity without error rules: typed operator terms carrying precedence, a right-associative and a
+# non-associative operator, an explicit rule precedence
+FLEET['G15'] = dict(
+    terms=[
+        ('num', T('regex', '[0-9]+', 'num', typed=True)),
+        ('plus', T('char', '+', prec=1, assoc='ltor', typed=True)),
+        ('minus', T('char', '-', prec=1, assoc='ltor')),
+        ('mul', T('char', '*', prec=2, assoc='ltor', typed=True)),
+        ('pow', T('char', '^', prec=4, assoc='rtol')),
+        ('lt', T('char', '<', prec=0)),
+        ('lp', T('char', '(')),
+        ('rp', T('char', ')')),
+        ('comma', T('char', ',')),
+    ],
+    nterms=['list', 'expr'],
+    root='list',
+    rules=[
+        ('expr', ['num'], 'plain'),
+        ('list', ['expr'], 'plain'),
+        ('expr', ['expr', 'plus', 'expr'], 'plain'),
+        ('expr', ['expr', 'pow', 'expr'], 'plain'),
+        ('list', ['list', 'comma', 'expr'], 'plain'),
+        ('expr', ['minus', 'expr'], 'plain', 3),
+        ('expr', ['expr', 'mul', 'expr'], 'ctx'),
+        ('expr', ['expr', 'minus', 'expr'], 'plain'),
+        ('expr', ['lp', 'expr', 'rp'], 'plain'),
+        ('expr', ['expr', 'lt', 'expr'], 'plain'),
+    ],
+    values=['node', 'mnode'],
+)
+
 # standalone regex matchers (regex::expr<P>)
 REGEXES = {
     'R1': 'ab*c',
